@@ -45,7 +45,7 @@ IDENT_HEADS = ['p', 'q', 'query', 'atom', 'unify', 'eval', 'exec', 'variable', '
 
 def plan(tier, seed):
     if tier == 'quick':
-        return {'n': 30000, 'deadline': 50,
+        return {'n': 30000, 'deadline': 150,
                 'floor': {'distinct_nontrivial': 8000, 'programs_compiled': 10000, 'ast_nodes_checked': 1000000,
                           'string_constants_checked': 100000, 'hostile_strings_emitted': 60000, 'loads_audited': 10000,
                           'call_events_checked': 80000, 'hostile_queries': 100000, 'renamings_compared': 3000,
